@@ -110,7 +110,7 @@ def assign_to(ex, st, target, val, cx, k):
     if isinstance(target, ast.Name):
         dt = declared_local(ex, cx, target.id)
         if dt is not None:
-            val = ex.coerce(val, dt, f'local {target.id}')
+            val = ex.coerce_chk(st, cx, target, val, dt, f'local {target.id}')
         return k(st.setvar(target.id, val))
     if isinstance(target, ast.Attribute):
         def f(s2, obj):
@@ -743,6 +743,26 @@ def find_block(fn_node, where):
     """statements designated by a locator:  body[i:j] | loop[o] | loop[o].body | loop[o].body[i:j]"""
     import re
     from .source import strip_docstring
+    ms = re.fullmatch(r'span([\[(])([\d.]+):([\d.]+)\]', where)
+    if ms:
+        # consecutive statements of one statement list, from loop a (exclusive with '(') through loop b (inclusive)
+        excl, a_, b_ = ms.group(1) == '(', ms.group(2), ms.group(3)
+        ords = loop_ordinals(fn_node)
+        na = nb = None
+        for n in ast.walk(fn_node):
+            if ords.get(id(n)) == a_:
+                na = n
+            if ords.get(id(n)) == b_:
+                nb = n
+        if na is None or nb is None:
+            raise VCError(f'anchor-missing: loops for block {where!r}')
+        for n in ast.walk(fn_node):
+            for fld in ('body', 'orelse', 'finalbody'):
+                lst = getattr(n, fld, None)
+                if isinstance(lst, list) and na in lst and nb in lst:
+                    i0, i1 = lst.index(na), lst.index(nb)
+                    return lst[i0 + (1 if excl else 0):i1 + 1]
+        raise VCError(f'anchor-missing: loops of {where!r} are not in one statement list')
     m = re.fullmatch(r'(?:loop\[([\d.]+)\])?(?:\.?(body))?(?:\[(\d*):(\d*)\])?', where)
     if not m:
         raise VCError(f'block locator {where!r}')
